@@ -129,6 +129,9 @@ Init ==
            h == Hash(X) + 11 * k
        IN /\ F!FullRank(X, 1) /\ h % Thin1 = 0
           /\ case = GenCase(X, 1, k, h)
+  \/ \E gi \in 1..5 :                        \* one column with zero excess kurtosis (invisible to the cube contrast)
+       LET X == << <<-3>>, <<0>>, <<0>>, <<0>>, <<0>>, <<3>> >> IN
+       case = Mk("gen", X, 1, 0, GSet[gi], <<gi, gi + 1>>, -1, 0, ZFor(X, 1), NoMix)
   \/ \E n \in 3..N2Max : \E X \in [1..n -> Rows2] : \E k \in 0..2 : \E sk \in {0, 1} :
        LET h == Hash(X) + 11 * k + 5 * sk IN
        /\ Keep2(n, h) /\ F!FullRank(X, 2)
